@@ -101,6 +101,18 @@ class Life:
             return list(zip(range(n)[i:], ds[i:]))
         if kind == 'items':
             return [(int(k[1:]), v) for k, v in ds.items()]
+        if kind == 'iter-nested':
+            # an iteration suspended after its first example while the cache is
+            # read from the end and completely through a copy
+            out = []
+            for pos, v in enumerate(ds):
+                out.append((pos, v))
+                if pos == 0:
+                    out.append((n - 1, ds[-1]))
+                    out += list(enumerate(ds.copy()))
+                if pos >= i:
+                    break
+            return out
         if kind in ('iter-consume', 'items-consume'):
             # a consumer that works on the examples in place (adds a field,
             # empties a list) inside the loop body; what it was handed is
@@ -337,7 +349,7 @@ def _try(f):
 
 
 GETS = [('get', k, i, h) for k in ('idx', 'neg', 'key', 'iter', 'slice', 'items',
-                                    'iter-consume', 'items-consume')
+                                    'iter-consume', 'items-consume', 'iter-nested')
         for i in range(3) for h in (0, 1)]
 
 
@@ -346,7 +358,8 @@ def scripted_histories():
     partial fill, a copy that outlives the original, and a reopen."""
     for r1, c1, r2, c2 in itertools.product((False, True), repeat=4):
         for fill in ((), (('get', 'idx', 1, 0),), (('get', 'iter', 1, 0), ('get', 'key', 2, 0)),
-                     (('get', 'iter-consume', 2, 0),), (('get', 'items-consume', 1, 0),)):
+                     (('get', 'iter-consume', 2, 0),), (('get', 'items-consume', 1, 0),),
+                     (('get', 'iter-nested', 2, 0),)):
             for copy_first in (False, True):
                 h = [('open', r1, c1)] + list(fill)
                 if copy_first:
